@@ -272,27 +272,41 @@ Proof.
   apply N2Z.inj_lt. rewrite Z2N.id by lia. change (Z.of_N (2 ^ 64)) with (2 ^ 64)%Z. lia.
 Qed.
 
+Lemma is_ascii_Forall s : is_ascii s = true -> Forall (fun b => b < 128) s.
+Proof.
+  unfold is_ascii. intros H. apply Forall_forall. intros b Hb.
+  rewrite forallb_forall in H. apply N.ltb_lt. now apply H.
+Qed.
+
 (* UniqueId text round trip on the current code: EVERY index, time and random *)
 Theorem uid_text_roundtrip : forall index time random,
   index < 2 ^ 32 -> time < 2 ^ 32 -> (- 2 ^ 63 <= random < 2 ^ 63)%Z ->
   uid_from_str (uid_display index time random) = Ok (index, time, random).
 Proof.
   intros index time random Hi Ht Hr.
-  destruct (uid_display_parts index time random Hi Ht Hr) as (Ha & Hb & Hc & _).
+  destruct (uid_display_parts index time random Hi Ht Hr) as (Ha & Hb & Hc & Hascii).
   unfold uid_from_str. rewrite (uid_display_ascii _ _ _ Hi Ht Hr).
   assert (Hlen : length (uid_display index time random) = 32%nat).
   { unfold uid_display. rewrite !app_length, Ha, Hb, Hc. reflexivity. }
-  rewrite Hlen. cbn [Nat.eqb andb]. unfold uid_display.
+  rewrite Hlen. cbn [Nat.eqb andb].
+  rewrite !ascii_char_boundary by (try exact Hascii; rewrite Hlen; lia). cbn [negb].
+  unfold uid_display.
   rewrite (slice_first _ _ Ha), (slice_mid _ _ _ Ha Hb), (slice_last _ _ _ Ha Hb Hc).
   rewrite (parse_hex_u_fmt 64 16 _ (wrap_u64_bound random)), (parse_hex_u_fmt 32 8 time Ht), (parse_hex_u_fmt 32 8 index Hi).
   cbn [rbind]. rewrite BytesFacts.wrap_roundtrip64; [reflexivity|].
   unfold in_i64. apply andb_true_intro. split; [apply Z.leb_le|apply Z.ltb_lt]; lia.
 Qed.
 
-(* from_str never panics: whatever the bytes (the pre-fix code did, see below) *)
+(* from_str never panics, whatever the bytes: the two things that could -- `&s[0..16]`/`&s[16..24]`/`&s[24..32]`
+   off a char boundary -- are unreachable behind `s.len() == 32 && s.is_ascii()`, and from_str_radix returns
+   errors (the code before 680c0119 did panic: uid_pinned_panics below) *)
 Theorem uid_from_str_no_panic : forall s, uid_from_str s <> Panic.
 Proof.
-  intros s. unfold uid_from_str. destruct (Nat.eqb (length s) 32 && is_ascii s); [|discriminate].
+  intros s. unfold uid_from_str.
+  destruct (Nat.eqb (length s) 32) eqn:El; cbn [andb]; [|discriminate].
+  destruct (is_ascii s) eqn:Ea; [|discriminate].
+  apply Nat.eqb_eq in El. apply is_ascii_Forall in Ea.
+  rewrite !ascii_char_boundary by (try exact Ea; rewrite El; lia). cbn [negb].
   unfold parse_hex_u.
   destruct (parse_hex_gen false (2 ^ 64 - 1) 0 (slice s 0 16)) as [[? ?]| | |] eqn:E1; cbn [rbind]; try discriminate.
   - destruct (parse_hex_gen false (2 ^ 32 - 1) 0 (slice s 16 24)) as [[? ?]| | |] eqn:E2; cbn [rbind]; try discriminate.
@@ -302,14 +316,18 @@ Proof.
   - exfalso. revert E1. apply parse_hex_gen_no_panic.
 Qed.
 
-(* ---- the code before /repo commit 680c0119 ---- *)
-Lemma uid_pre_fix_display index time random :
+(* a 32-byte string that is not ASCII is a length error, wherever the multi-byte character sits *)
+Theorem uid_from_str_non_ascii : forall s, is_ascii s = false -> uid_from_str s = Err ERR_UID_LEN.
+Proof. intros s H. unfold uid_from_str. rewrite H, Bool.andb_false_r. reflexivity. Qed.
+
+(* ---- uid_from_str_pinned: the code before /repo commit 680c0119 (the refutation witnesses) ---- *)
+Lemma uid_pinned_display index time random :
   index < 2 ^ 32 -> time < 2 ^ 32 -> (- 2 ^ 63 <= random < 2 ^ 63)%Z ->
-  uid_from_str_pre_fix (uid_display index time random) =
+  uid_from_str_pinned (uid_display index time random) =
   (r <- parse_hex_i64 (fmt_hex 16 (wrap_u 64 random)) ;; Ok (index, time, r)).
 Proof.
   intros Hi Ht Hr. destruct (uid_display_parts index time random Hi Ht Hr) as (Ha & Hb & Hc & Hascii).
-  unfold uid_from_str_pre_fix.
+  unfold uid_from_str_pinned.
   assert (Hlen : length (uid_display index time random) = 32%nat).
   { unfold uid_display. rewrite !app_length, Ha, Hb, Hc. reflexivity. }
   rewrite Hlen. cbn [Nat.eqb].
@@ -329,11 +347,11 @@ Proof.
 Qed.
 
 (* it round-tripped the non-negative random parts only ... *)
-Theorem uid_pre_fix_roundtrip : forall index time random,
+Theorem uid_pinned_roundtrip : forall index time random,
   index < 2 ^ 32 -> time < 2 ^ 32 -> (0 <= random < 2 ^ 63)%Z ->
-  uid_from_str_pre_fix (uid_display index time random) = Ok (index, time, random).
+  uid_from_str_pinned (uid_display index time random) = Ok (index, time, random).
 Proof.
-  intros index time random Hi Ht Hr. rewrite uid_pre_fix_display by (try assumption; lia).
+  intros index time random Hi Ht Hr. rewrite uid_pinned_display by (try assumption; lia).
   rewrite wrap_u_nonneg by lia. rewrite parse_hex_i64_fmt.
   - cbn [rbind]. rewrite Z2N.id by lia. reflexivity.
   - apply N2Z.inj_lt. rewrite Z2N.id by lia. change (Z.of_N (2 ^ 63)) with (2 ^ 63)%Z. lia.
@@ -341,28 +359,32 @@ Qed.
 
 (* ... EVERY negative random failed: Display prints the two's complement, 16 digits with the top bit set, which
    i64::from_str_radix rejects as a positive overflow (DESIGN F17) ... *)
-Theorem uid_pre_fix_negative_fails : forall index time random,
+Theorem uid_text_negative_fails : forall index time random,
   index < 2 ^ 32 -> time < 2 ^ 32 -> (- 2 ^ 63 <= random < 0)%Z ->
-  uid_from_str_pre_fix (uid_display index time random) = Err PIE_POS.
+  uid_from_str_pinned (uid_display index time random) = Err PIE_POS.
 Proof.
-  intros index time random Hi Ht Hr. rewrite uid_pre_fix_display by (try assumption; lia).
+  intros index time random Hi Ht Hr. rewrite uid_pinned_display by (try assumption; lia).
   rewrite wrap_u_neg by lia. rewrite parse_hex_i64_fmt_big; [reflexivity|].
   apply N2Z.inj_le. rewrite Z2N.id by lia. change (Z.of_N (2 ^ 63)) with (2 ^ 63)%Z. lia.
 Qed.
 
-Theorem uid_pre_fix_refuted : exists index time random,
+Theorem uid_text_refuted : exists index time random,
   index < 2 ^ 32 /\ time < 2 ^ 32 /\ (- 2 ^ 63 <= random < 2 ^ 63)%Z /\
-  uid_from_str_pre_fix (uid_display index time random) <> Ok (index, time, random).
+  uid_from_str_pinned (uid_display index time random) <> Ok (index, time, random).
 Proof.
   exists 0, 0, (-1)%Z. repeat split; try lia.
-  assert (E : uid_from_str_pre_fix (uid_display 0 0 (-1)) = Err PIE_POS) by (vm_compute; reflexivity).
+  assert (E : uid_from_str_pinned (uid_display 0 0 (-1)) = Err PIE_POS) by (vm_compute; reflexivity).
   rewrite E. discriminate.
 Qed.
 
-(* ... and a 32-byte string with a two-byte character across the random/time boundary panicked *)
-Example uid_pre_fix_panics : uid_from_str_pre_fix (repeat 48 15 ++ [195; 169] ++ repeat 48 15) = Panic
-                          /\ uid_from_str (repeat 48 15 ++ [195; 169] ++ repeat 48 15) = Err ERR_UID_LEN.
-Proof. split; vm_compute; reflexivity. Qed.
+(* ... and a 32-byte string with a two-byte character across the random/time boundary (byte 16) or the time/index
+   boundary (byte 24) panicked; the current code answers FromStrBadLen *)
+Example uid_pinned_panics :
+  let s16 := repeat 48 15 ++ [195; 169] ++ repeat 48 15 in
+  let s24 := repeat 48 23 ++ [195; 169] ++ repeat 48 7 in
+  uid_from_str_pinned s16 = Panic /\ uid_from_str_pinned s24 = Panic /\
+  uid_from_str s16 = Err ERR_UID_LEN /\ uid_from_str s24 = Err ERR_UID_LEN.
+Proof. repeat split; vm_compute; reflexivity. Qed.
 
 (* the text form is 32 bytes of ASCII hex *)
 Theorem uid_display_length : forall index time random,
